@@ -3,6 +3,8 @@ import Mathlib.Algebra.Order.Ring.Int
 import Mathlib.Algebra.Order.Ring.Rat
 import SurfProofs.Lemmas.Color256
 import SurfProofs.Lemmas.ColorTables
+import SurfProofs.Lemmas.ColorExact
+import SurfProofs.Lemmas.ColorExactReal
 /-!
 # C20 — colours reduced for 256-colour and grey terminals are the closest available ones
 
@@ -21,6 +23,7 @@ set_option linter.unusedSectionVars false
 
 namespace SurfProofs.C20
 open SurfModel.Color256 SurfProofs.Lemmas.Color256 SurfProofs.Lemmas.ColorTables
+open SurfProofs.Lemmas.ColorExact
 open SurfModel.Generated
 
 variable {K : Type} [CommRing K] [LinearOrder K] [IsStrictOrderedRing K]
@@ -271,6 +274,223 @@ theorem C20_optimal_tables (role : Role) (r g b : Nat) (hr : r < 256) (hg : g < 
       (Int.mul_ediv_cancel' d3)
   exact ⟨p, idx, _, _, _, hp, hread, er, eg, eb, hclosest⟩
 
+/-! ## the real palette: ε-optimality -/
+
+section truePalette
+variable {A B : Type}
+
+theorem xtermEntry_map (f : A → B) (cube greys : List A) (j : Nat) :
+    xtermEntry (cube.map f) (greys.map f) j =
+      (xtermEntry cube greys j).map fun c => (f c.1, f c.2.1, f c.2.2) := by
+  unfold xtermEntry
+  simp only [List.getElem?_map]
+  split_ifs
+  · cases cube[(j - 16) / 36]? <;> cases cube[(j - 16) / 6 % 6]? <;> cases cube[(j - 16) % 6]? <;> rfl
+  · cases greys[j - 232]? <;> rfl
+  · rfl
+
+/-- entries of two palettes of the same shape are related componentwise -/
+theorem xtermEntry_rel (R : A → B → Prop) (cA gA : List A) (cB gB : List B)
+    (hlc : cA.length = cB.length) (hlg : gA.length = gB.length)
+    (hc : ∀ (i : Nat) (a : A) (b : B), cA[i]? = some a → cB[i]? = some b → R a b)
+    (hg : ∀ (i : Nat) (a : A) (b : B), gA[i]? = some a → gB[i]? = some b → R a b)
+    (j : Nat) (cb : B × B × B) (h : xtermEntry cB gB j = some cb) :
+    ∃ ca, xtermEntry cA gA j = some ca ∧ R ca.1 cb.1 ∧ R ca.2.1 cb.2.1 ∧ R ca.2.2 cb.2.2 := by
+  unfold xtermEntry at h ⊢
+  split_ifs at h ⊢ with h1 h2
+  · split at h
+    · rename_i y1 y2 y3 e1 e2 e3
+      cases h
+      have l1 := (List.getElem?_eq_some_iff.mp e1).1
+      have l2 := (List.getElem?_eq_some_iff.mp e2).1
+      have l3 := (List.getElem?_eq_some_iff.mp e3).1
+      rw [← hlc] at l1 l2 l3
+      have a1 := List.getElem?_eq_getElem l1
+      have a2 := List.getElem?_eq_getElem l2
+      have a3 := List.getElem?_eq_getElem l3
+      rw [a1, a2, a3]
+      exact ⟨_, rfl, hc _ _ _ a1 e1, hc _ _ _ a2 e2, hc _ _ _ a3 e3⟩
+    · cases h
+  · split at h
+    · rename_i y e
+      cases h
+      have l := (List.getElem?_eq_some_iff.mp e).1
+      rw [← hlg] at l
+      have a := List.getElem?_eq_getElem l
+      rw [a]
+      exact ⟨_, rfl, hg _ _ _ a e, hg _ _ _ a e, hg _ _ _ a e⟩
+    · cases h
+end truePalette
+
+section
+variable {F : Type} [Field F] [LinearOrder F] [IsStrictOrderedRing F]
+
+/-- a colour triple and a palette entry within `ε` of another pair, channel by channel, all originals in `[0,1]` -/
+def Near (ε : F) (a b : F) : Prop := |b - a| ≤ ε ∧ 0 ≤ a ∧ a ≤ 1
+
+theorem dist_perturb {ε : F} {p q p' q' : F × F × F}
+    (hp : Near ε p.1 p'.1 ∧ Near ε p.2.1 p'.2.1 ∧ Near ε p.2.2 p'.2.2)
+    (hq : Near ε q.1 q'.1 ∧ Near ε q.2.1 q'.2.1 ∧ Near ε q.2.2 q'.2.2) :
+    |dist p' q' - dist p q| ≤ 3 * (2 * ε * (2 + 2 * ε)) := by
+  obtain ⟨⟨a1, a2, a3⟩, ⟨b1, b2, b3⟩, ⟨c1, c2, c3⟩⟩ := hp
+  obtain ⟨⟨d1, d2, d3⟩, ⟨e1, e2, e3⟩, ⟨f1, f2, f3⟩⟩ := hq
+  have h1 := chan_perturb a1 d1 a2 a3 d2 d3
+  have h2 := chan_perturb b1 e1 b2 b3 e2 e3
+  have h3 := chan_perturb c1 f1 c2 c3 f2 f3
+  unfold dist
+  rw [abs_le] at *
+  constructor <;> linarith [h1.1, h1.2, h2.1, h2.2, h3.1, h3.2]
+
+/-- **Transfer of optimality to a nearby palette.**  If `idx` is closest to `p` in palette `A`, then in any
+palette `X` of the same shape whose entries are within `ε` of those of `A`, for any colour `pX` within `ε`
+of `p` (all values of `A` and `p` in `[0,1]`), `idx` is closest up to `24 ε (1 + ε)` in squared distance. -/
+theorem closest_transfer (ε : F) (cA gA cX gX : List F)
+    (hlc : cA.length = cX.length) (hlg : gA.length = gX.length)
+    (hc : ∀ (i : Nat) (a x : F), cA[i]? = some a → cX[i]? = some x → Near ε a x)
+    (hg : ∀ (i : Nat) (a x : F), gA[i]? = some a → gX[i]? = some x → Near ε a x)
+    (p pX : F × F × F) (hp : Near ε p.1 pX.1 ∧ Near ε p.2.1 pX.2.1 ∧ Near ε p.2.2 pX.2.2)
+    (idx : Nat) (h : Closest cA gA p idx) :
+    ∃ c, xtermEntry cX gX idx = some c ∧
+      ∀ (j : Nat) (c' : F × F × F), xtermEntry cX gX j = some c' →
+        dist pX c ≤ dist pX c' + 24 * ε * (1 + ε) := by
+  obtain ⟨cA0, hA0, hmin⟩ := h
+  -- the entry at idx in X
+  obtain ⟨c, hc0, r1, r2, r3⟩ := xtermEntry_rel (fun (x a : F) => Near ε a x) cX gX cA gA hlc.symm hlg.symm
+    (fun i x a hx ha => hc i a x ha hx) (fun i x a hx ha => hg i a x ha hx) idx cA0 hA0
+  refine ⟨c, hc0, ?_⟩
+  intro j c' hj
+  obtain ⟨cA', hA', s1, s2, s3⟩ := xtermEntry_rel (Near ε) cA gA cX gX hlc hlg hc hg j c' hj
+  have d1 := dist_perturb hp (q := cA0) (q' := c) ⟨r1, r2, r3⟩
+  have d2 := dist_perturb hp (q := cA') (q' := c') ⟨s1, s2, s3⟩
+  have hm := hmin j cA' hA'
+  rw [abs_le] at d1 d2
+  have : 24 * ε * (1 + ε) = 2 * (3 * (2 * ε * (2 + 2 * ε))) := by ring
+  rw [this]
+  linarith [d1.2, d2.1]
+
+/-! ### the regenerated tables, seen in `F` -/
+
+theorem valF_eq (n : Int) : (valF n : F) = (n : F) / (3 * 2 ^ ColorTables.scaleBits) := by
+  simp only [valF, val]; push_cast; ring
+
+theorem valF_range {n : Int} (h : 0 ≤ n ∧ n ≤ 3 * 2 ^ ColorTables.scaleBits) :
+    0 ≤ (valF n : F) ∧ (valF n : F) ≤ 1 := by
+  rw [valF_eq]
+  have hS : (0 : F) < 3 * 2 ^ ColorTables.scaleBits := by positivity
+  have h0 : (0 : F) ≤ (n : F) := by exact_mod_cast h.1
+  have h1 : (n : F) ≤ 3 * 2 ^ ColorTables.scaleBits := by exact_mod_cast h.2
+  exact ⟨div_nonneg h0 (le_of_lt hS), (div_le_one hS).mpr h1⟩
+
+def valF3 (t : Int × Int × Int) : F × F × F := (valF t.1, valF t.2.1, valF t.2.2)
+
+theorem dist_valF (a b : Int × Int × Int) :
+    dist (valF3 a : F × F × F) (valF3 b) = ((dist a b : Int) : F) / (3 * 2 ^ ColorTables.scaleBits) ^ 2 := by
+  simp only [dist, valF3, valF_eq]; push_cast; ring
+
+theorem closest_valF {cube greys : List Int} {p : Int × Int × Int} {idx : Nat}
+    (h : Closest cube greys p idx) :
+    Closest (cube.map (valF (F := F))) (greys.map valF) (valF3 p) idx := by
+  obtain ⟨c, hc, hmin⟩ := h
+  refine ⟨valF3 c, by rw [xtermEntry_map, hc]; rfl, ?_⟩
+  intro j c' hj
+  rw [xtermEntry_map] at hj
+  cases hx : xtermEntry cube greys j with
+  | none => rw [hx] at hj; cases hj
+  | some c'' =>
+    rw [hx] at hj
+    cases hj
+    show dist (valF3 p) (valF3 c) ≤ dist (valF3 p) (valF3 c'')
+    rw [dist_valF, dist_valF]
+    have hS : (0 : F) < (3 * 2 ^ ColorTables.scaleBits) ^ 2 := by positivity
+    exact div_le_div_of_nonneg_right (by exact_mod_cast hmin j c'' hx) (le_of_lt hS)
+
+theorem near_of_table {t : List Int} {n : Nat} (hlen : t.length = n) (byte : Nat → Nat)
+    (hclose : ∀ i : Fin n, SrgbClose (byte i.val) (val (t[i.val]!)) eps)
+    (hrange : ∀ x ∈ t, 0 ≤ x ∧ x ≤ 3 * 2 ^ ColorTables.scaleBits)
+    (i : Nat) (a x : F) (ha : (t.map (valF (F := F)))[i]? = some a) (hx : IsSrgbLinear (byte i) x) :
+    Near ((eps : ℚ) : F) a x := by
+  rw [List.getElem?_map] at ha
+  cases hn : t[i]? with
+  | none => rw [hn] at ha; cases ha
+  | some m =>
+    rw [hn] at ha
+    cases ha
+    obtain ⟨hi, hm⟩ := List.getElem?_eq_some_iff.mp hn
+    have hc := hclose ⟨i, by omega⟩
+    have e : t[i]! = m := by rw [getElem!_pos t i hi]; exact hm
+    simp only [e] at hc
+    have := close_of_srgbClose (F := F) hc hx
+    have hr := valF_range (F := F) (hrange m (List.mem_of_getElem? hn))
+    exact ⟨by rw [abs_sub_comm]; exact this, hr.1, hr.2⟩
+
+/-- **No entry of the real palette is visibly closer.**  Let `cubeX`, `greysX` be the xterm palette in exact
+linear light (entries = exact sRGB → linear images of `00 5f 87 af d7 ff` and `08 12 … ee`, in any ordered
+field, e.g. ℝ) and `(pr, pg, pb)` the exact linear-light value of the requested colour `r g b`.  The index
+the model emits (the driver's run over the tables of the current build) denotes an entry of the REAL palette
+whose squared distance to the REAL colour exceeds the best of the 240 entries by at most
+`24 ε (1 + ε) ≤ 2.5 · 10⁻⁵`, `ε = 10⁻⁶` being the re-checked accuracy of `CUBE`, `GREYS` and the sRGB → linear
+table (`C20_tables`); `2 ε (2 + 2 ε)` per channel is the Lipschitz bound of `(p − q)²` on `[0, 1]²`. -/
+theorem C20_true_palette (cubeX greysX : List F) (hcx : cubeX.length = 6) (hgx : greysX.length = 24)
+    (hc : ∀ (i : Nat) (x : F), cubeX[i]? = some x → IsSrgbLinear (cubeBytes[i]!) x)
+    (hg : ∀ (i : Nat) (x : F), greysX[i]? = some x → IsSrgbLinear (greyByte i) x)
+    (role : Role) (r g b : Nat) (hr : r < 256) (hgr : g < 256) (hb : b < 256)
+    (pr pg pb : F) (hpr : IsSrgbLinear r pr) (hpg : IsSrgbLinear g pg) (hpb : IsSrgbLinear b pb)
+    (luma : Int) :
+    ∃ p idx c, colorSgrEncode envInt .eightBit role r g b luma = some p ∧
+      readIndexed p = some (role, idx) ∧ xtermEntry cubeX greysX idx = some c ∧
+      ∀ (j : Nat) (c' : F × F × F), xtermEntry cubeX greysX j = some c' →
+        dist (pr, pg, pb) c ≤ dist (pr, pg, pb) c' + 25 / 1000000 := by
+  obtain ⟨p, idx, lr, lg, lb, hp, hread, er, eg, eb, hclosest⟩ :=
+    C20_optimal_tables role r g b hr hgr hb luma
+  have hcl := closest_valF (F := F) hclosest
+  have nearLin : ∀ (v : Nat) (n : Int) (x : F), ColorTables.lin[v]? = some n → IsSrgbLinear v x →
+      Near ((eps : ℚ) : F) (valF n) x := by
+    intro v n x hn hx
+    exact near_of_table lin_length (fun i => i) lin_close lin_range v _ x
+      (by rw [List.getElem?_map, hn]; rfl) hx
+  obtain ⟨c, hcX, hmin⟩ := closest_transfer ((eps : ℚ) : F)
+    (ColorTables.cube.map valF) (ColorTables.greys.map valF) cubeX greysX
+    (by rw [List.length_map, cube_length, hcx]) (by rw [List.length_map, greys_length, hgx])
+    (fun i a x ha hx => near_of_table cube_length (fun i => cubeBytes[i]!) cube_close cube_range i a x ha
+      (hc i x hx))
+    (fun i a x ha hx => near_of_table greys_length greyByte greys_close greys_range i a x ha (hg i x hx))
+    (valF3 (lr, lg, lb)) (pr, pg, pb)
+    ⟨nearLin r lr pr er hpr, nearLin g lg pg eg hpg, nearLin b lb pb eb hpb⟩ idx hcl
+  refine ⟨p, idx, c, hp, hread, hcX, ?_⟩
+  intro j c' hj
+  have h := hmin j c' hj
+  have hb : (24 : F) * ((eps : ℚ) : F) * (1 + ((eps : ℚ) : F)) ≤ 25 / 1000000 := by
+    simp only [eps]; push_cast; norm_num
+  linarith
+end
+
+
+/-- the hypotheses of `C20_true_palette` are satisfiable: over ℝ the exact palette exists -/
+example : ∃ cubeX greysX : List ℝ, cubeX.length = 6 ∧ greysX.length = 24 ∧
+    (∀ (i : Nat) (x : ℝ), cubeX[i]? = some x → IsSrgbLinear (cubeBytes[i]!) x) ∧
+    (∀ (i : Nat) (x : ℝ), greysX[i]? = some x → IsSrgbLinear (greyByte i) x) ∧
+    ∀ c : Nat, ∃ x : ℝ, IsSrgbLinear c x := by
+  refine ⟨(List.range 6).map fun i => srgbLinear (cubeBytes[i]!),
+    (List.range 24).map fun i => srgbLinear (greyByte i), by simp, by simp, ?_, ?_, exists_srgbLinear⟩
+  · intro i x h
+    rw [List.getElem?_map] at h
+    cases hr : (List.range 6)[i]? with
+    | none => rw [hr] at h; cases h
+    | some k =>
+      rw [hr] at h; cases h
+      obtain ⟨hi, hk⟩ := List.getElem?_eq_some_iff.mp hr
+      rw [List.getElem_range] at hk; subst hk
+      exact srgbLinear_spec _
+  · intro i x h
+    rw [List.getElem?_map] at h
+    cases hr : (List.range 24)[i]? with
+    | none => rw [hr] at h; cases h
+    | some k =>
+      rw [hr] at h; cases h
+      obtain ⟨hi, hk⟩ := List.getElem?_eq_some_iff.mp hr
+      rw [List.getElem_range] at hk; subst hk
+      exact srgbLinear_spec _
+
 /-! ## the grey arm -/
 
 /-- On grey-only terminals the level chosen is the nearest of the four by luma: the parameter written is one
@@ -315,13 +535,42 @@ theorem C20_gray_monotone (levels : List K) (hs : levels.Pairwise (· < ·)) (hl
         | exact absurd rfl hrole
         | exact ⟨_, _, _, _, rfl, rfl, rfl, rfl, by omega⟩)
 
-/-- hypotheses of the two grey theorems hold for the levels the driver runs with (`f32` values of
-`0, 0.33, 0.66, 1`, see `Lemmas.ColorTables.levels_close`) -/
-example : levelsInt.Pairwise (· < ·) ∧ levelsInt.length = 4 := ⟨levels_sorted, by decide⟩
+/-- Underline colour under the `Gray` depth: NOTHING is emitted (src/encoder.rs: `Underline => return Ok(())`).
+There is no ANSI underline-colour code among the four achromatic colours, so no palette entry is selected
+for this role and the closest-entry claim is void for it; the underline keeps the terminal's default
+colour. -/
+theorem C20_gray_underline (levels : List K) (hs : levels.Pairwise (· < ·)) (hne : levels ≠ []) (luma : K) :
+    encodeGray levels luma .ul = some [] := by
+  obtain ⟨i, hi, _⟩ := nearest_spec levels (strictMono_of_pairwise hs) hne luma
+  unfold encodeGray
+  rw [hi]
+
+/-- The grey theorems at the levels the code really uses (`levelsInt`: the `f32` values of the literal
+`[0.0, 0.33, 0.66, 1.0]`, which are `0, 0.33, 0.66, 1` up to `2⁻²⁴`), for every luma value the driver can be
+given: nearest of the four and monotone for foreground and background, nothing for underline. -/
+theorem C20_gray_tables :
+    (levelsInt.map val = [0, f33, f66, 1] ∧ 33 / 100 ≤ f33 ∧ f33 ≤ 33 / 100 + 1 / 33554432 ∧
+      66 / 100 ≤ f66 ∧ f66 ≤ 66 / 100 + 1 / 16777216) ∧
+    (∀ (role : Role) (luma : Int), role ≠ .ul →
+      ∃ c k x, encodeGray levelsInt luma role = some [c] ∧ ansiGrey c = some (role, k) ∧
+        levelsInt[k]? = some x ∧ ∀ (j : Nat) (y : Int), levelsInt[j]? = some y → |luma - x| ≤ |luma - y|) ∧
+    (∀ (role : Role) (l₁ l₂ : Int), role ≠ .ul → l₁ ≤ l₂ →
+      ∃ c₁ c₂ k₁ k₂, encodeGray levelsInt l₁ role = some [c₁] ∧ encodeGray levelsInt l₂ role = some [c₂] ∧
+        ansiGrey c₁ = some (role, k₁) ∧ ansiGrey c₂ = some (role, k₂) ∧ k₁ ≤ k₂) ∧
+    (∀ luma : Int, encodeGray levelsInt luma .ul = some []) := by
+  have hlen : levelsInt.length = 4 := by decide
+  have hne : levelsInt ≠ [] := by intro h; rw [h] at hlen; simp at hlen
+  exact ⟨levels_close,
+    fun role luma hr => C20_gray_nearest levelsInt levels_sorted hlen role hr luma,
+    fun role l₁ l₂ hr h => C20_gray_monotone levelsInt levels_sorted hlen role hr l₁ l₂ h,
+    fun luma => C20_gray_underline levelsInt levels_sorted hne luma⟩
 
 /-! ## the true-colour arm -/
 
-/-- In true-colour mode the colour is transmitted unchanged, for the role asked for. -/
+/-- In true-colour mode the colour is transmitted unchanged, for the role asked for.  This is a statement
+about the MODEL's definition of the arm (`encodeTrue` writes `[code, 2, r, g, b]`, `readDirect` reads it back);
+that the implementation does the same (`Color::to_rgb` of an opaque colour, `{}` formatting) is established by
+the harness oracle only — exhaustively over all 2^24 colours × 3 roles in the thorough tier. -/
 theorem C20_truecolor_identity [Div K] (E : Env K) (role : Role) (r g b : Nat) (luma : K) :
     ∃ p, colorSgrEncode E .trueColor role r g b luma = some p ∧ readDirect p = some (role, r, g, b) := by
   refine ⟨encodeTrue role r g b, rfl, ?_⟩
